@@ -123,7 +123,7 @@ func (r *applyRule) OnInstr(e *Engine, st *State, fc *FrameCtx, in ssa.Instructi
 	}
 	switch x := in.(type) {
 	case *ssa.Store:
-		if tn, fld, _, ok := fieldOfAddr(x.Addr); ok && tn == "Materializer" && fld == "lastOffset" {
+		if tn, fld, _, ok := fieldOfAddr(x.Addr); ok && tn == "Materializer" && fld == discoverMem(e.P).MatOffset {
 			if b[1] < '2' {
 				b[1]++
 			}
@@ -134,7 +134,7 @@ func (r *applyRule) OnInstr(e *Engine, st *State, fc *FrameCtx, in ssa.Instructi
 			}
 			st.Note(in.Pos(), "lastOffset written")
 		}
-		if tn, fld, _, ok := fieldOfAddr(x.Addr); ok && tn == "Materializer" && fld == "collections" {
+		if tn, fld, _, ok := fieldOfAddr(x.Addr); ok && tn == "Materializer" && fld == discoverMem(e.P).MatColl {
 			if b[0] < '2' {
 				b[0]++
 			}
@@ -143,7 +143,7 @@ func (r *applyRule) OnInstr(e *Engine, st *State, fc *FrameCtx, in ssa.Instructi
 			b[4] = r.classify(e, st, fc, x.Val)
 		}
 	case *ssa.MapUpdate:
-		if tn, fld, _, ok := fieldLoad(x.Map); ok && tn == "Materializer" && fld == "collections" {
+		if tn, fld, _, ok := fieldLoad(x.Map); ok && tn == "Materializer" && fld == discoverMem(e.P).MatColl {
 			if b[0] < '2' {
 				b[0]++
 			}
@@ -210,8 +210,9 @@ func (r *applyRule) OnExit(e *Engine, st *State, kind ExitKind) {
 
 func runApply(c *Ctx, p *Prog, S *stateRoles, want map[string]string) {
 	e := NewEngine(p)
-	e.Immutable["Materializer.cfg"] = true
-	e.Immutable["materializerConfig.strictSchema"] = true
+	M := discoverMem(p)
+	e.Immutable["Materializer."+M.MatCfg] = true
+	e.Immutable[M.CfgType+"."+M.CfgStrict] = true
 	r := &applyRule{S: S, muts: map[string]bool{}}
 	e.Resolve = func(cc *ssa.CallCommon) *ssa.Function {
 		// the collection applier interface has one implementation in the package
@@ -306,9 +307,11 @@ func casesOn(f *ssa.Function, typ string) map[string]*ssa.BasicBlock {
 }
 
 // reachesOp: starting at blk, which store operations are reachable before the function returns.
+// Static calls to functions of the state package are followed (a case body moved into a helper).
 func opsReachable(blk *ssa.BasicBlock) map[string]bool {
 	out := map[string]bool{}
 	seen := map[*ssa.BasicBlock]bool{}
+	seenFn := map[*ssa.Function]bool{blk.Parent(): true}
 	stack := []*ssa.BasicBlock{blk}
 	for len(stack) > 0 {
 		b := stack[len(stack)-1]
@@ -321,8 +324,14 @@ func opsReachable(blk *ssa.BasicBlock) map[string]bool {
 			if op, _, ok := storeOp(in); ok {
 				out[op] = true
 			}
-			if ci, ok := in.(ssa.CallInstruction); ok && isDynamicCall(ci.Common()) {
-				out["callback"] = true
+			if ci, ok := in.(ssa.CallInstruction); ok {
+				if isDynamicCall(ci.Common()) {
+					out["callback"] = true
+				}
+				if sc := ci.Common().StaticCallee(); sc != nil && PkgOf(sc) == PkgState && !seenFn[sc] && len(sc.Blocks) > 0 {
+					seenFn[sc] = true
+					stack = append(stack, sc.Blocks[0])
+				}
 			}
 		}
 		stack = append(stack, b.Succs...)
@@ -395,14 +404,20 @@ func keysOf(m map[string]bool) []string {
 func checkResetClearsAll(c *Ctx, p *Prog, S *stateRoles, rule string) {
 	f := S.applyControl
 	var rng *ssa.Range
-	for _, b := range f.Blocks {
-		for _, in := range b.Instrs {
-			if r, ok := in.(*ssa.Range); ok {
-				if tn, fld, _, ok := fieldLoad(r.X); ok && tn == "Materializer" && fld == "collections" {
-					rng = r
+	// the loop may sit in a helper of the package called from the control switch
+	for _, g := range reachFuncs(p, S.applyControl, PkgState) {
+		for _, b := range g.Blocks {
+			for _, in := range b.Instrs {
+				if r, ok := in.(*ssa.Range); ok {
+					if tn, fld, _, ok := fieldLoad(r.X); ok && tn == "Materializer" && fld == discoverMem(p).MatColl {
+						rng = r
+					}
 				}
 			}
 		}
+	}
+	if rng != nil {
+		f = rng.Parent()
 	}
 	if rng == nil {
 		c.Violate(rule, "reset/ranges-over-all-collections", p.Pos(f.Pos()), "reset does not range over the whole collections map", nil)
@@ -597,7 +612,7 @@ func checkNoLastOffsetRead(c *Ctx, p *Prog, S *stateRoles, rule string) {
 		for _, b := range f.Blocks {
 			for _, in := range b.Instrs {
 				if ld, ok := in.(*ssa.UnOp); ok && ld.Op == token.MUL {
-					if tn, fld, _, ok := fieldOfAddr(ld.X); ok && tn == "Materializer" && fld == "lastOffset" {
+					if tn, fld, _, ok := fieldOfAddr(ld.X); ok && tn == "Materializer" && fld == discoverMem(p).MatOffset {
 						n++
 						c.Violate(rule, "Apply/step-independent-of-lastOffset/"+FuncDisplay(f), p.Pos(in.Pos()), "applying an event reads lastOffset: the step is no longer a function of (collections, event) only, so a replay split into two sessions can differ from one session", nil)
 					}
